@@ -13,7 +13,23 @@ for p in props:
     if not os.path.exists(os.path.join(V, "harness", pid.lower() + ".py")):
         na.append({"property_id": pid, "reason": reasons.get(pid, "not claimed yet: the Lean model and correspondence harness planned in DESIGN.md §5 are not built; no other technique is substituted")})
         continue
-    c = importlib.import_module(pid.lower()).Check()
+    # a check is claimed only once it has run clean on this tree (evidence written, all theorems discharged)
+    evp = os.path.join(V, "evidence", pid + ".json")
+    ready = False
+    if os.path.exists(evp):
+        try:
+            ev = json.load(open(evp)); cov = ev.get("coverage", {})
+            ready = ev.get("violations", 1) == 0 and cov.get("obligations") == cov.get("discharged")
+        except Exception:
+            ready = False
+    if not ready:
+        na.append({"property_id": pid, "reason": reasons.get(pid, "not claimed yet: the Lean model/correspondence for this property is under construction and has not yet run clean on the unchanged tree; no other technique is substituted")})
+        continue
+    try:
+        c = importlib.import_module(pid.lower()).Check()
+    except Exception as e:
+        na.append({"property_id": pid, "reason": f"not claimed yet: check module does not import ({type(e).__name__})"})
+        continue
     checks.append({
         "property_id": pid,
         "quick_cmd": f"./check {pid} --tier quick",
